@@ -11,6 +11,7 @@ package main
 
 import (
 	"fmt"
+	"sort"
 	"go/token"
 	"strings"
 
@@ -169,6 +170,47 @@ func ruleFreshDecode(c *Ctx, rule string) {
 			}
 		}
 	}
+	// decodes made by helpers that a loop calls for each element (`handlerFor(action)(ctx, l, params, i, data)`): the
+	// target must be allocated by the helper on that call, or be a parameter whose argument is fresh in the loop
+	for _, fn := range c.RepoFuncs() {
+		pk := fnPkgPath(origin(fn))
+		if !strings.HasPrefix(pk, modPath+"/internal/api") || len(fn.Blocks) == 0 || fn.Synthetic != "" {
+			continue
+		}
+		if strings.HasSuffix(c.Fset.Position(fn.Pos()).Filename, "_test.go") {
+			continue
+		}
+		for _, body := range naturalLoopsSorted(fn) {
+			for _, lr := range loopReached(c, body) {
+				k := 0
+				for _, b := range lr.fn.Blocks {
+					for _, ins := range b.Instrs {
+						call, ok := ins.(*ssa.Call)
+						if !ok {
+							continue
+						}
+						name := calleeFullName(call)
+						if name != "encoding/json.Unmarshal" && name != "(*encoding/json.Decoder).Decode" {
+							continue
+						}
+						target := call.Call.Args[1]
+						nLoopDecodes++
+						k++
+						ok2, why := freshAllocIn(c, target, allBlocks(lr.fn), 0)
+						if !ok2 {
+							if prm := paramOrigin(target, lr.fn); prm != nil && lr.via == lr.site {
+								if idx := paramIndex(prm); idx >= 0 && idx < len(lr.site.Call.Args) {
+									ok2, why = freshAllocIn(c, lr.site.Call.Args[idx], body, 0)
+								}
+							}
+						}
+						c.check(ok2, rule, fmt.Sprintf("%s:decode-target-fresh#%d", fnName(lr.fn), k), call.Pos(), why+" (helper called once per element)",
+							fmt.Sprintf("%s, called for each element of a loop, decodes JSON into %s: an element inherits fields of the elements decoded before it", fnName(lr.fn), why))
+					}
+				}
+			}
+		}
+	}
 	c.NSites += nDecodes
 	if nLoopDecodes < 4 {
 		c.undecided(rule, "floor:decodes-in-loops", token.NoPos, fmt.Sprintf("only %d JSON decodes inside loops found in internal/api (of %d decodes)", nLoopDecodes, nDecodes))
@@ -238,6 +280,58 @@ func ruleLoopCarriedArgs(c *Ctx, rule string, floor int) {
 				c.check(bad == "", rule, key+":arguments-built-in-the-iteration", call.Pos(),
 					"no argument of the engine call reads a variable that outlives the iteration and is assigned in the loop",
 					bad+": an element of the bulk is executed with values left by the elements before it (e.g. their idempotency key, so it is answered from their log instead of being executed)")
+			}
+		}
+	}
+	// engine calls made by helpers that the loop calls for each element: an argument that is a parameter of the helper is
+	// what the loop passes for it
+	for _, fn := range c.RepoFuncs() {
+		pk := fnPkgPath(origin(fn))
+		if !strings.HasPrefix(pk, modPath+"/internal/api") || len(fn.Blocks) == 0 || fn.Synthetic != "" {
+			continue
+		}
+		if strings.HasSuffix(c.Fset.Position(fn.Pos()).Filename, "_test.go") {
+			continue
+		}
+		for _, body := range naturalLoopsSorted(fn) {
+			for _, lr := range loopReached(c, body) {
+				seen := map[string]int{}
+				for _, b := range lr.fn.Blocks {
+					for _, ins := range b.Instrs {
+						call, ok := ins.(*ssa.Call)
+						if !ok || !call.Call.IsInvoke() || namedOf(call.Call.Value.Type()) != ledgerIface {
+							continue
+						}
+						nCalls++
+						c.seeFn(lr.fn)
+						key := fmt.Sprintf("%s:%s", fnName(lr.fn), call.Call.Method.Name())
+						seen[key]++
+						if n := seen[key]; n > 1 {
+							key = fmt.Sprintf("%s#%d", key, n)
+						}
+						bad := ""
+						for ai, a := range call.Call.Args {
+							if isNamed(a.Type(), "context", "Context") {
+								continue
+							}
+							prm := paramOrigin(a, lr.fn)
+							if prm == nil || lr.via != lr.site {
+								continue // built by the helper on this call
+							}
+							idx := paramIndex(prm)
+							if idx < 0 || idx >= len(lr.site.Call.Args) {
+								continue
+							}
+							if why := carriedAcrossIterations(lr.site.Call.Args[idx], lr.site, body, 0, map[ssa.Value]bool{}); why != "" {
+								bad = fmt.Sprintf("argument %d of %s is the helper's parameter `%s`, for which the loop passes %s", ai+1, call.Call.Method.Name(), prm.Name(), why)
+								break
+							}
+						}
+						c.check(bad == "", rule, key+":arguments-built-in-the-iteration", call.Pos(),
+							"no argument of the engine call reads a variable that outlives the iteration and is assigned in the loop",
+							bad+": an element of the bulk is executed with values left by the elements before it (e.g. their idempotency key, so it is answered from their log instead of being executed)")
+					}
+				}
 			}
 		}
 	}
@@ -365,5 +459,114 @@ func allRefsToCell(a *ssa.Alloc) []ssa.Instruction {
 		}
 	}
 	walk(a, 0)
+	return out
+}
+
+// loopReached: the functions of internal/api that the calls made inside a loop body may invoke (static callees, literals,
+// functions returned by a selector helper — `handlerFor(action)(…)`), transitively to depth 2, each with the call site
+// in the loop through which it is first reached.
+type loopReach struct {
+	fn   *ssa.Function
+	site *ssa.Call // the call inside the loop body (for depth 1); for deeper functions, the depth-1 call that leads there
+	via  *ssa.Call // the call instruction that invokes fn directly
+}
+
+func loopReached(c *Ctx, body map[*ssa.BasicBlock]bool) []loopReach {
+	var out []loopReach
+	seen := map[*ssa.Function]bool{}
+	var visit func(call *ssa.Call, site *ssa.Call, depth int)
+	visit = func(call *ssa.Call, site *ssa.Call, depth int) {
+		if call.Call.IsInvoke() {
+			return
+		}
+		for _, g := range c.CalleesOf(call) {
+			if g == nil || len(g.Blocks) == 0 || seen[g] || !strings.HasPrefix(fnPkgPath(origin(g)), modPath+"/internal/api") {
+				continue
+			}
+			seen[g] = true
+			out = append(out, loopReach{g, site, call})
+			if depth < 2 {
+				for _, b := range g.Blocks {
+					for _, ins := range b.Instrs {
+						if cl, ok := ins.(*ssa.Call); ok {
+							visit(cl, site, depth+1)
+						}
+					}
+				}
+			}
+		}
+	}
+	var blocks []*ssa.BasicBlock
+	for b := range body {
+		blocks = append(blocks, b)
+	}
+	sort.Slice(blocks, func(i, j int) bool { return blocks[i].Index < blocks[j].Index })
+	for _, b := range blocks {
+		for _, ins := range b.Instrs {
+			if cl, ok := ins.(*ssa.Call); ok {
+				visit(cl, cl, 1)
+			}
+		}
+	}
+	return out
+}
+
+func allBlocks(fn *ssa.Function) map[*ssa.BasicBlock]bool {
+	m := map[*ssa.BasicBlock]bool{}
+	for _, b := range fn.Blocks {
+		m[b] = true
+	}
+	return m
+}
+
+// paramOrigin: v is (a load/field/conversion of) a parameter of fn; returns it.
+func paramOrigin(v ssa.Value, fn *ssa.Function) *ssa.Parameter {
+	for i := 0; i < 10; i++ {
+		switch x := v.(type) {
+		case *ssa.Parameter:
+			if x.Parent() == fn {
+				return x
+			}
+			return nil
+		case *ssa.UnOp:
+			if p, ok := stripLoadOfParamCell(x).(*ssa.Parameter); ok && p.Parent() == fn {
+				return p
+			}
+			v = x.X
+		case *ssa.FieldAddr:
+			v = x.X
+		case *ssa.Field:
+			v = x.X
+		case *ssa.MakeInterface:
+			v = x.X
+		case *ssa.ChangeType:
+			v = x.X
+		case *ssa.Convert:
+			v = x.X
+		case *ssa.Alloc:
+			if s := singleStore(x); s != nil {
+				v = s
+				continue
+			}
+			return nil
+		default:
+			return nil
+		}
+	}
+	return nil
+}
+
+// naturalLoopsSorted: the loop bodies of fn in a stable order (by head index).
+func naturalLoopsSorted(fn *ssa.Function) []map[*ssa.BasicBlock]bool {
+	loops := naturalLoops(fn)
+	var heads []*ssa.BasicBlock
+	for h := range loops {
+		heads = append(heads, h)
+	}
+	sort.Slice(heads, func(i, j int) bool { return heads[i].Index < heads[j].Index })
+	var out []map[*ssa.BasicBlock]bool
+	for _, h := range heads {
+		out = append(out, loops[h])
+	}
 	return out
 }
